@@ -1357,7 +1357,7 @@ var jsonhSoup = []string{
 	`"`, `\`, "\n", "\r", "\t", "\x00", "\x01", "\x1f", "\x7f", "\xff", "\xc0", "\xed\xa0\x80", " ", " ",
 	"\xef\xbf\xbd", "\xe2\x80", "\xf0\x9f\x98", "\xc0\x80", "\xe0\x80\x80", "\xf0\x80\x80\x80", "\xc1\xbf", "\xf4\x90\x80\x80",
 	"\xfe", "\x80", "\xbf", "\x08", "\x0c", "\x1b[31m", "a", "Z", " ", "/", "<", ">", "&", "'", "{", "}", ",", ":", "é", "ß", "€", "😀", "\U0010FFFF",
-	`\u0000`, `\n`, `\"`, "\xe2\x80\xa8\xe2", "\xed\x9f\xbf", "\xee\x80\x80", "\xf0\x90\x80\x80", "\xf8\x88\x80\x80\x80",
+	`\u0000`, `\n`, `\"`, `\u003c`, `\u003e`, `\u0026`, `\\u003c`, `\u2028`, `\/`, "\xe2\x80\xa8\xe2", "\xed\x9f\xbf", "\xee\x80\x80", "\xf0\x90\x80\x80", "\xf8\x88\x80\x80\x80",
 }
 
 func (j *jsonhRunner) soup() string {
